@@ -887,8 +887,9 @@ class Scene(Geometry3D):
         Does this by changing the base frame to a new, offset
         base frame.
         """
-        if self.is_empty or np.allclose(self.centroid, 0.0):
+        if self.is_empty or self.bounds is None or np.allclose(self.centroid, 0.0):
             # early exit since what we want already exists
+            # or there is no instance of any geometry to move
             return
 
         # the transformation to move the overall scene to AABB centroid
@@ -1297,7 +1298,9 @@ class Scene(Geometry3D):
             # remove all existing transforms
             result.graph.clear()
 
-            for group in grouping.group(geometries):
+            # if no geometry is instanced there is nothing to scale
+            groups = grouping.group(geometries) if len(nodes) > 0 else []
+            for group in groups:
                 # hashable reference to self.geometry
                 geometry = geometries[group[0]]
                 # original transform from world to geometry
